@@ -103,6 +103,16 @@ def parent_search(ctx):
     if b is None:
         return
     rps = q.calls(b, 'std::iter::Iterator::rposition')
+    if not rps:
+        import parents
+        lf = parents.loop_form(fx)
+        if lf is not None:
+            # the explicit backwards-loop spelling (rules/parents.py)
+            ctx.inst('V4', 'search (loop form)', lf['nearest_smaller'], 'descending loop over 0..id that takes the first layer with child_level < own child_level: %s'
+                     % '; '.join(lf['detail'][:2]), b.span, key=b.name + '|V4|loop-form')
+            ctx.inst('V5', 'no parent (loop form)', lf['none_iff_level0'], 'None reaches the table only on the level == 0 path; with level != 0 the push is dominated by '
+                     '`parent.is_none() -> Err`: %s' % lf['detail'][-1], b.span, key=b.name + '|V5|loop-form')
+            return
     ctx.floor('last-match searches in compute_parents', len(rps), 1)
     item = None
     for c in rps:
